@@ -29,6 +29,13 @@ WHAT={
 "W-unused-show-term-pool": ("src/ngo/unused.py:86-129 analyze_usage (show-term bodies not scanned)", "`#show a : s(1;2).` becomes `#show a : s.` twice: a non-rule statement is changed"),
 "W-domain-ignores-input": ("src/ngo/dependency.py DomainPredicates.__compute_domains (facts of declared input predicates are not part of the domain)", "`{a(X)} :- d(X).` with input a/1: instance fact a(5) is not in __dom_a, so __dom_b misses b(5,1) and the rewritten constraint never fires"),
 "W-unused-mapper-set-order": ("src/ngo/unused.py:168-176 Mapper.__init__ (`for v in vars_` iterates a set of AST nodes whose hash is address dependent)", "optimize is not reproducible across processes: the use-site variable A11 is captured in about half of the runs (`b(f(1,..),1)` instead of `b(f(A11,..),1)`), independent of PYTHONHASHSEED"),
+"W-sumchains-shared-element": ("src/ngo/sum_aggregates.py _replace_elements (edits elem.condition through a live ASTSequence: aggregate elements shared between the rules produced by unpool are mutated twice)", "`a(X) :- X = #sum{L,D : shift(D,L)}, p(1;2).`: the second unpooled rule sums the chain atoms directly; a(2) before, a(3) after"),
+"W-sumchains-projected-group": ("src/ngo/sum_aggregates.py _replace_optimize (group variable of the at-most-one predicate is not part of the objective tuple)", "`#minimize{ X : p(D,X) }` with `{p(D,X):q(D,X)} 1 :- d(D)`: equal values of different groups coincide in the source (cost 3) but not after the rewrite (cost 6)"),
+"W-math-range-admits": ("src/ngo/math_simplification.py Goebner.combine (constant term not moved when one relation has no constant part)", "`:- X = #sum{..4 atoms..}, X >= 0, X <= 3.` becomes `0 >= #sum{...; -3,__agg(1)} >= 0`: answer sets appear although the source has none"),
+"W-math-elim-used-in-agg": ("src/ngo/math_simplification.py execute (variable eliminated although still used inside a translated aggregate's element)", "`a :- s(N), X = N-1, 1 <= #sum{1,Z : r(Z,X), p(Z)}.`: X becomes local to the aggregate"),
+"W-minmax-neg-eq": ("src/ngo/minmax_aggregates.py:329-372 replace_orig (drops the literal's sign)", "`a :- not 4 = #max{...}` becomes `a :- __max(4)`"),
+"W-minmax-translate-params-crash": ("src/ngo/utils/ast.py:833-843 TranslationMap.translate_parameters (assert) via minmax_aggregates", "a variable shared between the aggregate and the body is projected out of the result head and the result is used in #minimize: AssertionError"),
+"W-minmax-simple-negated-recursion": ("src/ngo/minmax_aggregates.py:444-461 _process_rule (negated one-sided bound takes the simple translation)", "`a :- not 1 < #min{X : p(X)}. p(0) :- a.`: the negated aggregate (evaluated in the candidate model only) becomes the positive body `p(X0); not 1 < X0`, the answer set {a, p(0)} loses its support (found while stating the HT soundness lemma for the dispatch table)"),
 "W-duplication-selfeq": ("src/ngo/utils/ast.py:771-812 replace_assignments", "`X = X*3` substituted away by duplication's replace_assignments / postprocess"),
 }
 findings=[{"id":"C18-pool","properties":["C18"],"site":"src/ngo/utils/ast.py:293-302 literal_predicate (symbol.ast_type == Function only)","witness":{"text":"a :- p(1;2)."},"what":"atom written with a pool (a :- p(1;2).) is skipped by every predicate collector: auto_detect_input returns [] although p/1 occurs only in a body","matcher":"c18_unpool"}]
@@ -42,6 +49,9 @@ for w in W:
     wit={k:w[k] for k in ("check","xproc","runs","text","traits","input","output","mode","instances") if k in w}
     props=w["props"]
     if w["id"].startswith("W-normalize"): props=sorted(set(props)|{"C01","C02","C05","C06","C08","C09","C10","C11","C12","C13","C14","C15","C16"})
+    if w.get("check")=="c03":
+        findings.append({"id":w["id"][2:],"properties":props,"site":site,"witness":{k:w[k] for k in ("check","text","traits","input","output")},"exc":w["exc"],"exc_site":w["exc_site"],"what":what,"matcher":"exc_site"})
+        continue
     findings.append({"id":w["id"][2:],"properties":props,"site":site,"witness":wit,"what":what,"matcher":"text"})
 # sweep failures on the fixed corpus not covered by a witness text
 norm=lambda t: re.sub(r"\s+","",t)
